@@ -273,6 +273,9 @@ func checkC08(ctx *Ctx, r *Report) {
 	checkRecursiveTemplate(ctx, r, ts, recStrict, false)
 	checkLoopDepth(ctx, r, ts, recValidate)
 	checkLoopDepth(ctx, r, ts, recStrict)
+	checkTemporariesDepthNamed(ctx, r, ts, recStrict)
+	checkTemporariesDepthNamed(ctx, r, ts, recValidate)
+	r.Floor("temporaries declared by recursive templates", 2)
 	r.Floor("depth-named loops in recursive templates", 4)
 	r.Floor("branches of recursive templates", 14)
 	c08ResolvesToConstraints(ctx, r)
@@ -285,6 +288,8 @@ func checkC08(ctx *Ctx, r *Report) {
 	inProgressRestored(ctx, r, []string{"internal/jennies/golang/validation.go"}, 1)
 	c01SiblingReplacements(ctx, r)
 	c08CueConstraintSiblings(ctx, r)
+	c08TypeListThroughWalkers(ctx, r)
+	c08UnionReuseComparesBranches(ctx, r)
 }
 
 func checkC13(ctx *Ctx, r *Report) {
@@ -1139,4 +1144,182 @@ func c08RuneLengths(ctx *Ctx, r *Report, ts *tmplSet) {
 	}
 	r.Count("string length operators in the Go validation template", n)
 	r.Floor("string length operators in the Go validation template", 2)
+}
+
+// checkTemporariesDepthNamed: a recursive template emits Go statements into one function body; a temporary declared with
+// `:=` next to a recursive call is declared again by the nested expansion, inside the loop of the outer one — the inner
+// declaration shadows the outer variable for the rest of the loop body (the strict decoder indexed the *inner*, empty,
+// `partialArray`). Every temporary of such a template that outlives a statement must carry the depth in its name: the
+// identifier in front of `:=` / after `var` is (or ends in) a template action. Declarations scoped to an if statement
+// (`if err := …; err != nil`) do not outlive it and are exempt.
+var plainDeclRe = regexp.MustCompile(`(?m)(^|[^\w⟧.])([A-Za-z_]\w*)\s*:=`)
+
+func checkTemporariesDepthNamed(ctx *Ctx, r *Report, ts *tmplSet, rt recTemplate) {
+	tree := ts.trees[rt.define]
+	if tree == nil {
+		return
+	}
+	actionRe := regexp.MustCompile(`⟦[^⟧]*⟧`)
+	n := 0
+	// every list of the template that contains a recursive call, innermost first: its own text lines
+	var visit func(l *parse.ListNode)
+	visit = func(l *parse.ListNode) {
+		if l == nil {
+			return
+		}
+		recurses := false
+		for _, nd := range l.Nodes {
+			switch x := nd.(type) {
+			case *parse.IfNode:
+				visit(x.List)
+				visit(x.ElseList)
+			case *parse.RangeNode:
+				visit(x.List)
+				visit(x.ElseList)
+			case *parse.WithNode:
+				visit(x.List)
+				visit(x.ElseList)
+			case *parse.TemplateNode:
+				if x.Name == rt.define {
+					recurses = true
+				}
+			}
+		}
+		if !recurses {
+			return
+		}
+		// the text of this list only (nested lists are replaced by nothing)
+		var b strings.Builder
+		for _, nd := range l.Nodes {
+			switch x := nd.(type) {
+			case *parse.TextNode:
+				b.Write(x.Text)
+			case *parse.ActionNode:
+				if len(x.Pipe.Decl) == 0 {
+					b.WriteString("⟦" + strings.ReplaceAll(x.Pipe.String(), ":=", "≔") + "⟧")
+				}
+			}
+		}
+		_ = actionRe
+		for _, line := range strings.Split(b.String(), "\n") {
+			if !strings.Contains(line, ":=") {
+				continue
+			}
+			trimmed := strings.TrimSpace(line)
+			if strings.HasPrefix(trimmed, "if ") || strings.HasPrefix(trimmed, "} else if ") || strings.HasPrefix(trimmed, "for ") {
+				continue // scoped to the statement (loop variables are checked by skeleton/loop-depth-fresh)
+			}
+			n++
+			m := plainDeclRe.FindStringSubmatch(line)
+			plain := ""
+			if m != nil {
+				plain = m[2]
+			}
+			// a name that is a template action must depend on the depth
+			if plain == "" {
+				if am := regexp.MustCompile(`⟦([^⟧]*)⟧\s*:=`).FindStringSubmatch(line); am != nil {
+					expr := resolveVar(strings.TrimSpace(am[1]), varDecls(tree.Root))
+					if !strings.Contains(strings.ToLower(expr), "depth") {
+						plain = am[1] + " (= " + expr + ", which does not depend on the depth)"
+					}
+				}
+			}
+			r.Check(plain == "", "skeleton/temporaries-depth-named", fmt.Sprintf("%s declares `%s`", rt.define, trimmed), token.NoPos, "the declared name carries a template action (the depth)",
+				fmt.Sprintf("%s: the recursive template declares the temporary `%s` under a fixed name next to a recursive call: the expansion for a nested list / map declares it again inside the outer loop and shadows it — the outer collection is then read through the inner, empty, variable (index out of range / unexpected end of JSON input on valid documents)", ts.file[rt.define], plain))
+		}
+	}
+	visit(tree.Root)
+	r.Count("temporaries declared by recursive templates", n)
+}
+
+// c08TypeListThroughWalkers: a JSON Schema node whose `type` is a list (`["string","null"]`) carries its bounds, format
+// and default next to that list. The branch of each non-null type must be produced by the walker of that type (which
+// reads those keywords), not by a bare scalar constructor fed with the type name alone.
+func c08TypeListThroughWalkers(ctx *Ctx, r *Report) {
+	fn := ctx.LookupMethod("internal/jsonschema", "generator", "walkScalarDisjunction")
+	fd, p := ctx.DeclOf(fn)
+	if fd == nil {
+		r.Undecided("anchor lost: jsonschema.generator.walkScalarDisjunction")
+		return
+	}
+	info := p.TypesInfo
+	n := 0
+	ast.Inspect(fd.Body, func(m ast.Node) bool {
+		cc, ok := m.(*ast.CaseClause)
+		if !ok || cc.List == nil {
+			return true
+		}
+		names := ""
+		for _, e := range cc.List {
+			names += exprString(e) + " "
+		}
+		if strings.Contains(names, "typeNull") && len(cc.List) == 1 {
+			return true
+		}
+		n++
+		walks, bare := false, ""
+		for _, st := range cc.Body {
+			ast.Inspect(st, func(q ast.Node) bool {
+				c, ok := q.(*ast.CallExpr)
+				if !ok {
+					return true
+				}
+				f := callee(info, c)
+				if f == nil {
+					return true
+				}
+				if f.Pkg() == p.Types && strings.HasPrefix(f.Name(), "walk") {
+					walks = true
+				}
+				if f.Pkg() != nil && f.Pkg().Path() == astPkgPath {
+					switch f.Name() {
+					case "String", "Bool", "NewScalar", "Bytes":
+						bare = exprString(c)
+					}
+				}
+				return true
+			})
+		}
+		r.Check(walks && bare == "", "frontier/type-list-through-walkers", "jsonschema.walkScalarDisjunction case "+strings.TrimSpace(names), cc.Pos(), "the branch is produced by the walker of that type",
+			fmt.Sprintf("walkScalarDisjunction builds the branch for %s with %s from the type name alone: minLength / minimum / format / default written next to `\"type\": [...]` never reach the IR — Validate() accepts what the schema forbids", strings.TrimSpace(names), bare))
+		return true
+	})
+	r.Count("non-null cases of JSON Schema type lists", n)
+	r.Floor("non-null cases of JSON Schema type lists", 1)
+}
+
+// c08UnionReuseComparesBranches: DisjunctionToType names the struct it generates for a union after the *kinds* of its
+// branches (`StringOrInt64`) and, when an object of that name was already generated, returns a reference to it. Two unions
+// of the same kinds but different bounds then share one type — and one Validate(), built from the first. The shortcut
+// must compare the branches (constraints included) of the union at hand with those of the object it reuses.
+func c08UnionReuseComparesBranches(ctx *Ctx, r *Report) {
+	fn := ctx.LookupMethod("internal/ast/compiler", "DisjunctionToType", "processDisjunction")
+	fd, _ := ctx.DeclOf(fn)
+	if fd == nil {
+		r.Undecided("anchor lost: DisjunctionToType.processDisjunction")
+		return
+	}
+	n := 0
+	ast.Inspect(fd.Body, func(m ast.Node) bool {
+		is, ok := m.(*ast.IfStmt)
+		if !ok || !strings.Contains(exprString(is.Cond), "HasNewObject") {
+			return true
+		}
+		n++
+		compares := false
+		ast.Inspect(is, func(q ast.Node) bool {
+			if s, ok := q.(*ast.SelectorExpr); ok {
+				switch s.Sel.Name {
+				case "Equal", "Equals", "Constraints", "DeepEqual":
+					compares = true
+				}
+			}
+			return true
+		})
+		r.Check(compares, "traverse/union-reuse-compares-branches", "DisjunctionToType reuses a generated union type", is.Pos(), "after comparing the branches of both unions",
+			"DisjunctionToType reuses the object generated for an earlier union as soon as the *name* (built from the branch kinds) matches: `big?: (string & MinRunes(4)) | (int & >=10)` and `small?: (string & MaxRunes(2)) | (int & <=5)` both become *StringOrInt64 with the Validate() of the first — valid values of `small` are rejected, invalid ones accepted")
+		return true
+	})
+	r.Count("reuse shortcuts of DisjunctionToType", n)
+	r.Floor("reuse shortcuts of DisjunctionToType", 1)
 }
